@@ -270,6 +270,10 @@ Proof. intros H. destruct o; simpl; auto.
   - revert s H. induction kvs as [|[a b] kvs IH]; simpl; intros s H; auto. apply IH. now apply kv_set_sorted.
 Qed.
 
+(* a failing update or bulk write leaves the map as it was *)
+Lemma kv_step_fail_unchanged s o : (match o with OUpdateFail _ | OBulkFail _ => True | _ => False end) -> kv_step s o = (s, RErr).
+Proof. destruct o; intros H; try contradiction; reflexivity. Qed.
+
 Theorem kv_run_sorted ops : forall s, ksorted s -> ksorted (fst (kv_run s ops)).
 Proof. induction ops as [|o ops IH]; intros s H; simpl; auto.
   pose proof (kv_step_sorted s o H). destruct (kv_step s o) as [s1 x]. simpl in *.
